@@ -134,6 +134,8 @@ func init() {
 // every signature is individually valid for the pair at the same position ("ideal aggregate":
 // the cancellation of invalid signatures is excluded here; it is C32's subject).
 
+type blsPub struct{ raw []byte } // a deserialised public key: its canonical bytes
+
 type blsSigs struct{ sigs []string }
 type blsPairs struct{ pairs [][2]string } // (pub hex, hash hex)
 
@@ -177,6 +179,30 @@ func init() {
 			}
 			var cell value = blsPairs{[][2]string{{hex.EncodeToString(valuesToBytes(pub)), args[1].(string)}}}
 			return tuple{&cell, iface{}}
+		}
+		// public keys: (de)serialisation is the identity on the canonical bytes
+		externals["(*"+bl+"PublicKey).DeserializeHexStr"] = func(fr *frame, args []value) value {
+			s, ok := args[1].(string)
+			if !ok || strings.Contains(s, symMarkOpen) {
+				panic(unsupported("bls.PublicKey.DeserializeHexStr of a symbolic string"))
+			}
+			raw, err := hex.DecodeString(s)
+			if err != nil || len(raw) == 0 {
+				return fr.i.makeError("err blsPublicKeyDeserialize " + s)
+			}
+			*args[0].(*value) = blsPub{raw}
+			return iface{}
+		}
+		externals["(*"+bl+"PublicKey).Serialize"] = func(fr *frame, args []value) value {
+			m, ok := (*args[0].(*value)).(blsPub)
+			if !ok {
+				panic(unsupported("bls.PublicKey.Serialize of a key that was not deserialised in the model"))
+			}
+			out := make([]value, len(m.raw))
+			for i, b := range m.raw {
+				out[i] = b
+			}
+			return out
 		}
 		externals["(*"+bl+"Sign).Add"] = func(fr *frame, args []value) value {
 			a := (*args[0].(*value)).(blsSigs)
